@@ -18,7 +18,7 @@ From FJ Require Import Lib.Base.
    The code modelled is the tree AFTER the fix commits 519ec12 (get_minimized_expr wraps arithmetic errors: F7),
    b770ddf (flip / jump / wflip words are range-checked when the op is inserted: F8), 0ef0f9a (a pad that runs past
    2^w bits is refused: F9, partly), 3bd0fc0 (Writer.add_data / add_segment validate what they are given), 435c753
-   (get_wflip_spot skips the op that holds the input bit), 825c6f7 + 7a19742 (a negative reserve is refused), 523f875 + d8bb7f7 (diagnostics print big integers in hex) and 07c8d15 (a source
+   (get_wflip_spot skips the op that holds the input bit), 825c6f7 + 7a19742 (a negative reserve is refused), 523f875 + d8bb7f7 (diagnostics print big integers in hex), 0a31844 (RecursionError is a library error: F10) and 07c8d15 (a source
    label spelled like the internal "_.wflip_area_start_<i>" is a 'declared twice' error: N2).
 
    What is abstracted (and why it does not matter for the classification of failures):
@@ -54,6 +54,7 @@ Inductive libkind :=
   | KSegmentEval | KSegmentUnaligned | KReserveEval | KReserveUnaligned | KReserveNegative
   (* FlipJumpAssemblerException *)
   | KOpEval | KOpRange | KBoundsUnaligned | KNoSpace | KAddSegment | KNoFirstOp
+  | KTooDeep          (* "The source nests too deeply for python's recursion limit ...": assemble's RecursionError clause *)
   (* FlipJumpWriteFjmException *)
   | KWriterData.
 
@@ -689,12 +690,14 @@ Definition packable (cfg : config) (wr : wstate) : bool := forallb (word_ok cfg)
 Inductive verdict := VOk | VLib (k : libkind) | VCatchAll (x : rawexn) | VHang.
 Record outcome := mkout { o_verdict : verdict; o_file : fstate }.
 
-(* try: ... except FlipJumpException: raise / except Exception: raise FlipJumpAssemblerException("Unknown exception ...") *)
+(* try: ... except FlipJumpException: raise / except RecursionError: raise FlipJumpAssemblerException("The source nests
+   too deeply ...") (fix 0a31844) / except Exception: raise FlipJumpAssemblerException("Unknown exception ...") *)
 Definition ladder {A} (r : res A) (f : fstate) (k : A -> outcome) : outcome :=
   match r with
   | Ok a => k a
   | LibError e => mkout (VLib e) f
   | RawExn Hang => mkout VHang f
+  | RawExn RecursionError => mkout (VLib KTooDeep) f
   | RawExn x => mkout (VCatchAll x) f
   end.
 
@@ -719,10 +722,6 @@ Definition assemble_model (cfg : config) (t : macro_dict) : outcome :=
 Definition counts_materialisable (cfg : config) (t : macro_dict) : bool :=
   match o_verdict (assemble_model cfg t) with VCatchAll MemoryError | VHang => false | _ => true end.
 
-(* F10: no expression tree deeper than the recursive traversals survive *)
-Definition expr_depth_ok (cfg : config) (t : macro_dict) : bool :=
-  match o_verdict (assemble_model cfg t) with VCatchAll RecursionError => false | _ => true end.
-
 (* domain: parse_macro_tree always returns a dictionary that holds the main macro ("", 0) *)
 Definition has_main (t : macro_dict) : bool := match find_macro t main_macro_name with Some _ => true | None => false end.
 
@@ -740,7 +739,7 @@ Definition libkind_code (k : libkind) : N :=
   | KMacroUndefined => 10 | KMacroDepth => 11 | KLabelTwice => 12 | KRepTimes => 13 | KPadEval => 14
   | KPadNonPositive => 15 | KPadUnaligned => 16 | KPadTooBig => 21 | KSegmentEval => 17 | KSegmentUnaligned => 18
   | KReserveEval => 19 | KReserveUnaligned => 20 | KReserveNegative => 22
-  | KOpEval => 30 | KOpRange => 31 | KBoundsUnaligned => 32 | KNoSpace => 33 | KAddSegment => 34 | KNoFirstOp => 35
+  | KOpEval => 30 | KOpRange => 31 | KBoundsUnaligned => 32 | KNoSpace => 33 | KAddSegment => 34 | KNoFirstOp => 35 | KTooDeep => 36
   | KWriterData => 40
   end%N.
 
